@@ -138,7 +138,7 @@ def c16(ctx):
         ctx.coverage["settings_unusable"] = desc["unusable"]
         for name, why in desc["unusable"].items():
             ctx.notes.append("setting %s not exercised: %s" % (name, why))
-        per = 220 if ctx.quick else None
+        per = 500 if ctx.quick else None
         jobs = []
         for s in settings:
             cases = by_kind.get(s["kind"], [])
